@@ -1640,6 +1640,15 @@ theorem c16_src_McStateExtra (v : Val) (f : Frag) (he : mcStateExtra.enc v = som
     SrcBlk.McStateExtra false (f ++ k) = some (Blk.view_McStateExtra v, k) :=
   Blk.refines_McStateExtra.on_encoding v f he k
 
+/-- `ShardStateUnsplit.deserialize` (`shard_state#9023afe2`: the nine inline fields, `out_msg_queue_info` kept as a cell,
+    `accounts:^ShardAccounts` through the regenerated `ShardAccounts`, the `^[ … ]` group read only when that cell is ordinary —
+    `overload_history … libraries master_ref` —, `custom:(Maybe ^McStateExtra)` through the regenerated `McStateExtra`), regenerated from
+    the source: every field with its encoded value, exactly the encoded bits and refs consumed.  Declared: the values of `libraries`
+    (`load_dict(256)` without a value_deserializer) are raw Slices, compared by presence only. -/
+theorem c16_src_ShardStateUnsplit (v : Val) (f : Frag) (he : shardStateUnsplit.enc v = some f) (hv : v.noVar = true) (k : Frag) :
+    SrcBlk.ShardStateUnsplit false (f ++ k) = some (Blk.view_ShardStateUnsplit v, k) :=
+  Blk.refines_ShardStateUnsplit.on_encoding v f he hv k
+
 /-- the hand model of `deserialize_shard_hashes` + `BinTree.deserialize` (`Rd.loadShardHashes`; source text pinned by the translator)
     against `HashmapE 32 ^(BinTree X)`: `None` / the dict of BinTree objects whose `.list` holds the leaves left to right, each parsed by
     a leaf reader that agrees with `X`; exact consumption. -/
